@@ -18,6 +18,9 @@ RULE = ("generated pyproject files in both table styles ([project] and [tool.poe
 WORDS = ["alpha", "Beta gamma", "x: y", "naïve café", "日本語", "a;b", "semi-colon; here", "tab\there", "(paren)", "quote\"s", "back\\slash", "  lead", "trail  ", "Ünï"]
 def word(rng):
     return rng.choice(WORDS)
+def content_type(name):
+    """PEP 566 / core metadata: the type follows the file suffix (.rst, .md/.markdown, anything else plain)"""
+    return "text/x-rst" if name.endswith(".rst") else "text/markdown" if name.endswith((".md", ".markdown")) else "text/plain"
 def toml_str(s):
     return json.dumps(s, ensure_ascii=False)
 
@@ -39,6 +42,13 @@ def gen(rng, inject=None):
     if rng.random() < 0.7:
         d["readme"] = rng.choice(["# Title\n\nBody text.\n", "Name: evil\nVersion: 9\n\nFrom me to you\nFrom: x\n", "line1\r\nline2\r\n", "Unicode ✓ ünï\n\n\ntrailing blank lines\n\n", ""])
     d["readme_inline"] = d["readme"] is not None and rng.random() < 0.3
+    # the file may be in any of the formats poetry-core tells apart by suffix; [project] may give it as a table with an explicit type;
+    # [tool.poetry] may list several files (the description is their texts joined, typed after the first)
+    d["readme_file"] = rng.choice(["README.md", "README.md", "README.rst", "README.txt", "docs/README.markdown", "README"])
+    if d["readme_inline"]: d["readme_file"] = "README.md"      # the inline form declares text/markdown: same declaration in both table styles
+    d["readme_table"] = rng.random() < 0.3
+    d["readme2"] = rng.choice([("CHANGES.rst", "Changes\n=======\n\n* one\n"), ("NOTES.md", "## Notes\n"), ("EXTRA.txt", "plain text\n"), ("HISTORY.rst", "")]) \
+        if d["readme"] is not None and rng.random() < 0.35 else None
     if inject:
         # the twin without the line break is kept so that every other field can be compared with it
         d["_twin"] = {k: v for k, v in d.items()}
@@ -74,7 +84,9 @@ def pyproject(d, style):
         if d["classifiers"]: L.append("classifiers = [" + ", ".join(toml_str(c) for c in d["classifiers"]) + "]")
         if d["readme"] is not None:
             # PEP 621 allows the readme inline; the description must be that text wherever the project lives (D42)
-            L.append("readme = {text = " + toml_str(d["readme"]) + ', content-type = "text/markdown"}' if d.get("readme_inline") else 'readme = "README.md"')
+            L.append("readme = {text = " + toml_str(d["readme"]) + ', content-type = "text/markdown"}' if d.get("readme_inline") else
+                     "readme = {file = " + toml_str(d["readme_file"]) + ", content-type = " + toml_str(content_type(d["readme_file"])) + "}" if d.get("readme_table") else
+                     "readme = " + toml_str(d["readme_file"]))
         if d["python"] and not d["python"].startswith("^"): L.append(f"requires-python = {toml_str(d['python'])}")
         if d["extras"]:
             L.append("[project.optional-dependencies]")
@@ -91,7 +103,8 @@ def pyproject(d, style):
         if d["maintainers"]: L.append("maintainers = [" + ", ".join(toml_str(p) for p in d["maintainers"]) + "]")
         if d["license"]: L.append(f"license = {toml_str(d['license'])}")
         if d["classifiers"]: L.append("classifiers = [" + ", ".join(toml_str(c) for c in d["classifiers"]) + "]")
-        if d["readme"] is not None: L.append('readme = "README.md"')
+        if d["readme"] is not None:
+            L.append("readme = " + (toml_str(d["readme_file"]) if not d.get("readme2") else "[" + toml_str(d["readme_file"]) + ", " + toml_str(d["readme2"][0]) + "]"))
         if d["urls"]:
             L.append("[tool.poetry.urls]")
             for k, v in d["urls"].items(): L.append(f"{toml_str(k)} = {toml_str(v)}")
@@ -112,7 +125,10 @@ def build(d, style):
     try:
         (tmp / "pkg").mkdir(); (tmp / "pkg" / "__init__.py").write_text("")
         (tmp / "pyproject.toml").write_text(pyproject(d, style), encoding="utf-8")
-        if d["readme"] is not None: (tmp / "README.md").write_bytes(d["readme"].encode("utf-8"))
+        if d["readme"] is not None:
+            (tmp / d.get("readme_file", "README.md")).parent.mkdir(parents=True, exist_ok=True)
+            (tmp / d.get("readme_file", "README.md")).write_bytes(d["readme"].encode("utf-8"))
+            if d.get("readme2"): (tmp / d["readme2"][0]).write_bytes(d["readme2"][1].encode("utf-8"))
         try:
             b = Builder(Factory().create_poetry(tmp))
         except Exception as e:  # noqa
@@ -186,9 +202,12 @@ def judge(d, text, style):
         if any(q.marker is None or q.marker.evaluate(env0) for q in reqs):
             return f"the optional dependency is required without any extra: Requires-Dist {rd}"
     if d["readme"] is not None:
-        if msg["Description-Content-Type"] != "text/markdown": return f"content type {msg['Description-Content-Type']!r}"
+        inline = style == "project" and d.get("readme_inline")
+        want_ct = "text/markdown" if inline else content_type(d.get("readme_file", "README.md"))
+        if msg["Description-Content-Type"] != want_ct: return f"content type {msg['Description-Content-Type']!r}, declared readme {d.get('readme_file')!r} is {want_ct}"
         body = msg.get_payload()
-        if body.replace("\r\n", "\n").rstrip("\n") != d["readme"].replace("\r\n", "\n").rstrip("\n"): return f"body {body!r} != readme {d['readme']!r}"
+        want = d["readme"] if (style == "project" or not d.get("readme2")) else d["readme"] + "\n" + d["readme2"][1]
+        if body.replace("\r\n", "\n").rstrip("\n") != want.replace("\r\n", "\n").rstrip("\n"): return f"body {body!r} != readme {want!r}"
     allowed = {"Metadata-Version", "Name", "Version", "Summary", "License", "Keywords", "Author", "Author-email", "Maintainer", "Maintainer-email",
                "Requires-Python", "Classifier", "Provides-Extra", "Requires-Dist", "Project-URL", "Description-Content-Type"}
     extra = [k for k in msg.keys() if k not in allowed]
